@@ -23,6 +23,7 @@ STUBS = [
     "otherwise real power for an integral exponent, uninterpreted powr(a,b) for other exponents",
     "np.absolute: If(v<0,-v,v); np.seterr: no-op; np.format_float_positional: realise, then real numpy",
     "math.isnan: False on (finite) proxies; math.factorial: realise then real; math.isclose: real",
+    "float(v) inside mathy_core.expressions: the same real value typed as a Python float",
 ]
 
 INT64 = 2**63
@@ -179,6 +180,20 @@ class MathShim:
         return _math.factorial(v)
 
 
+class _FloatMeta(type):
+    def __instancecheck__(cls, o: Any) -> bool:
+        return isinstance(o, float)
+
+    def __call__(cls, x: Any = 0.0) -> Any:  # type: ignore[override]
+        if _is_sym(x):
+            return SymNum(x.z, False)
+        return float(x)
+
+
+class FloatShim(metaclass=_FloatMeta):
+    """`float` as seen inside mathy_core.expressions: float(proxy) keeps the value symbolic (typed float)."""
+
+
 NP = NpShim()
 MATH = MathShim()
 
@@ -195,8 +210,15 @@ def installed():
             if hasattr(mod, name):
                 saved.append((mod, name, getattr(mod, name)))
                 setattr(mod, name, shim)
+    had_float = "float" in vars(E)
+    old_float = vars(E).get("float")
+    E.float = FloatShim  # type: ignore[attr-defined]
     try:
         yield
     finally:
         for mod, name, old in saved:
             setattr(mod, name, old)
+        if had_float:
+            E.float = old_float  # type: ignore[attr-defined]
+        else:
+            del E.float  # type: ignore[attr-defined]
